@@ -46,7 +46,7 @@ def gen_program(r, idx):
     nkw = r.choice([0, 0, 1, 2]) if (varargs or r.random() < 0.5) else 0
     kwdef = [r.random() < 0.5 for _ in range(nkw)]
     varkw = r.random() < 0.35
-    kind = r.choice(['func', 'func', 'func', 'method', 'unbound', 'callable', 'partial', 'partial', 'partial_method'])
+    kind = r.choice(['func', 'func', 'wrapped', 'method', 'unbound', 'callable', 'partial', 'partial', 'partial_method'])
     if r.random() < 0.06:        # the fully variadic signature `(*args, **kw)`: nothing is named, the key is tail + keyword items only
         npos, ndef, varargs, nkw, kwdef, varkw = 0, 0, True, 0, [], True
     defaults = [r.choice(POOL) for _ in range(ndef)]
@@ -83,10 +83,16 @@ def build_callable(prog):
     kind = prog['kind']
     inst = None
     ns['_calls'] = CALLS
-    if kind in ('func', 'partial'):
+    if kind in ('func', 'partial', 'wrapped'):
         src = 'def target(%s):\n    _calls.append(1); return 0\n' % ', '.join(params)
         exec(src, ns)
         f = ns['target']
+        if kind == 'wrapped':
+            # a functools.wraps wrapper whose own parameters differ from those of the function it wraps: the callable handed to
+            # klepto is the wrapper, and it is the wrapper's parameters that a call binds
+            def inner(only): return 0
+            f = functools.wraps(inner)(f)
+            src += '# target = functools.wraps(inner)(target)   with   def inner(only)\n'
     else:
         meth = '__call__' if kind == 'callable' else 'target'
         src = 'class C(object):\n    def %s(%s):\n        _calls.append(1); return 0\n' % (meth, ', '.join(['self'] + params))
@@ -146,7 +152,7 @@ def respell(r, f, args, kw, inst_first):
     """other spellings of the same call: positional <-> keyword, keyword order, defaults spelled out.
     Returns a list of (args, kw) that CPython binds identically (oracle: inspect.signature)."""
     try:
-        sig = inspect.signature(f)
+        sig = inspect.signature(f, follow_wrapped=False)
         ba = sig.bind(*args, **kw)
         full_bind(f, args, kw)
     except (TypeError, ValueError):
@@ -243,7 +249,7 @@ def full_bind(f, args, kw):
     pre = ()
     if inspect.ismethod(g):
         pre = (g.__self__,); g = g.__func__
-    sig = inspect.signature(g)
+    sig = inspect.signature(g, follow_wrapped=False)
     ba = sig.bind(*(pre + tuple(pargs) + tuple(args)), **dict(pkw, **kw))
     ba.apply_defaults()
     named, epos, ekw = {}, [], {}
